@@ -491,7 +491,7 @@ def coincide(draw):
               ["ftimers_clear p1", "interrupt p1 -2 0"], ["ftimer_add p1 0x0p0 4", "stop p1 3"],
               ["setprio p1 %s" % draw(PRIOS), "interrupt p1 9 0"]]
     forced = kind == "wait_proc" and draw(st.booleans())
-    if forced or draw(st.integers(0, 2)) == 0:
+    if forced or draw(st.booleans()):
         # (for a wait on a process: often the awaited one is ended and started again within the instant)
         co = combos[0] if forced else draw(st.sampled_from(combos))
         at = d if (d == 0.0 or draw(st.booleans())) else d - 0.5
